@@ -155,9 +155,21 @@ def run(ctx) -> None:
                 ctx.count("exhaustive_K_sweeps")
                 ctx.count(f"exhaustive_K_sweeps_n{n}")
     ns = [2, 3, 4, 5, 5, 6, 6] + ([7] if not quick else [])
+    big = 0
     for n, fam, values, exact in boundcore.pick_cases(ctx, ns, gen.SA_FAMILIES):
         if ctx.out_of_time(1.0):
             break
+        if rng.random() < 0.05:
+            boundcore.poison(ctx, n, sut.SA_COMPUTERS)
+        if big < (1 if quick else 6) and ctx.time_left() > 12:
+            # beyond 8 players coalition ids leave the 8-bit range
+            big += 1
+            nb = rng.choice([8, 9])
+            vb, eb = gen.sa_game(rng, nb, rng.choice(["int", "int_neg", "addsur_int"]))
+            Kb = gen.random_knowledge_set(rng, nb)
+            run_case(ctx, {"n": nb, "family": "big_n", "values": vb, "exact": eb, "computer": "superadditive_cached", "K": Kb},
+                     do_cert=False, do_lp=False)
+            ctx.count(f"n{nb}")
         for _ in range(2):
             K = gen.random_knowledge_set(rng, n)
             for comp in sut.SA_COMPUTERS:
